@@ -112,7 +112,7 @@ def c18(tier):
     return [sel('spellings', 'C18', SEL(2, 'pairs', 'small', spell='all'), ['Emit'], timeout=3600),
             sel('all-64-spellings', 'C18', SEL(2, 'triples', 'small', spell='all64'), ['Emit'], timeout=7200),
             roundtrip('roundtrip-atoms', 'C18', 'atoms'), roundtrip('roundtrip-steps', 'C18', 'steps', 7200),
-            sel('spellings-funcs', 'C18', SEL(2, 'triples', 'full', funcs=True, spell='all'), ['Emit'], timeout=3600)]
+            sel('spellings-funcs', 'C18', SEL(2, 'triples', 'small', funcs=True, spell='all', fset='small'), ['Emit'], timeout=7200)]
 
 
 def apalache_lemma():
